@@ -32,7 +32,10 @@ def matching_strings(tree: ast.AST, ranges: list | None = None) -> set[str]:
                     if isinstance(v, ast.Constant) and isinstance(v.value, str):
                         out.add(v.value)
     for n in ast.walk(tree):
-        if ranges is not None and not any(a <= getattr(n, "lineno", a) <= b for a, b in ranges):
+        ln = getattr(n, "lineno", None)
+        if ln is None and isinstance(n, ast.comprehension):
+            ln = getattr(n.iter, "lineno", None)
+        if ranges is not None and (ln is None or not any(a <= ln <= b for a, b in ranges)):
             continue
         if isinstance(n, ast.Compare):
             consts(n)
@@ -208,6 +211,15 @@ def slice_idents(frames: list[tuple[str, int]]) -> set[str] | None:
     out: set[str] = set()
     if not frames:
         return None
+    # functions that are themselves on the recording stack are sliced precisely by their own frame — never wholesale as a helper
+    on_stack = set()
+    for fname, line in frames:
+        try:
+            for n in ast.walk(_parsed(fname)):
+                if isinstance(n, (ast.FunctionDef, ast.AsyncFunctionDef)) and n.lineno <= line <= (n.end_lineno or n.lineno):
+                    on_stack.add(n.name)
+        except Exception:
+            return None
     for fname, line in frames:
         try:
             tree = _parsed(fname)
@@ -224,7 +236,7 @@ def slice_idents(frames: list[tuple[str, int]]) -> set[str] | None:
         strs = matching_strings(fn, ranges)
         # module-level helper functions/classes called from the slice: their whole bodies (transitively)
         top = {n.name: n for n in tree.body if isinstance(n, (ast.FunctionDef, ast.AsyncFunctionDef, ast.ClassDef))}
-        todo, done = [h for h in helpers if h in top], set()
+        todo, done = [h for h in helpers if h in top and h not in on_stack], set(on_stack)
         while todo:
             h = todo.pop()
             if h in done:
